@@ -184,7 +184,8 @@ def fsm_ctx_run(ck):
             def run_cb(kind, name, _me=None):
                 T.append(('cb', kind, name, _snap(ctxval[0])))
                 if kind == 'cond':
-                    return [script.get('cond', True)]
+                    # two conditions (instance callback and method): ALL of them must be true
+                    return [script.get('cond', True), True]
                 if kind == 'enter':
                     todo = script.get('enter', {}).get(name)
                     if todo == 'raise':
